@@ -86,10 +86,13 @@ theorem hSkipStage_legal (c : Cfg) (s : State) (id i : Nat) :
   simp only []
   split
   · trivial
-  · rename_i h
+  split
+  · split
+    · exact effAll_quietB _ _ (by quiet_tac)
+    · trivial
+  · rename_i h _
     have hs : (s.stage i).status = .notStarted := by
-      simp only [Bool.or_eq_true, bne_iff_ne, ne_eq, not_or, Decidable.not_not] at h
-      exact h.1
+      simpa using h
     simp only [List.flatten_cons, List.flatten_nil, List.append_nil, List.cons_append]
     refine effAll_write_then_quietB _ _ _ (legalEff_setStage_tasks_same s i _ (by simp [hs, Status.canTransition, Status.validNext]) rfl) ?_
     split <;> quiet_tac
